@@ -210,8 +210,8 @@ void h_find_full(void) { HAYSTACK(6); NEEDLE_V(3);
   VF_KNOWN(C08_find_tail_overread, w_find_tail(hay_in, hn, en, enn, ep));
    unsigned long r = CALL_V(find); SEARCH_CHECK(r, r_find, T_FIND); }
 
-/*@GROUP name=find_fwd_full props=C08,C02,C05 kind=B unwind=8 unwindset=r_find.0:8,r_rfind.0:8,r_ffo.0:8,r_ffno.0:8,r_flo.0:8,r_flno.0:8,r_cmp.0:8,r_mismatch.0:8,w_find_tail.0:8,r_match.0:5,r_in.0:5,r_strlen.0:5 bound=haystack<=6,needle<=3 cost=3 tier=thorough timeout=1500 when=VF_CT==0@*/
-void h_find_fwd_full(void) { HAYSTACK(6); NEEDLE_FWD(3, 0UL);
+/*@GROUP name=find_fwd_full props=C08,C02,C05 kind=B unwind=7 unwindset=r_find.0:8,r_rfind.0:8,r_ffo.0:8,r_ffno.0:8,r_flo.0:8,r_flno.0:8,r_cmp.0:8,r_mismatch.0:8,w_find_tail.0:8,r_match.0:5,r_in.0:5,r_strlen.0:5 bound=haystack<=5,needle<=2 cost=3 tier=thorough timeout=1500 when=VF_CT==0@*/
+void h_find_fwd_full(void) { HAYSTACK(5); NEEDLE_FWD(2, 0UL);
   __CPROVER_assume(enn >= 1); /* domain split: the empty needle is group find_empty */
   VF_KNOWN(C08_find_tail_overread, w_find_tail(hay_in, hn, en, enn, ep));
    unsigned long r = CALL_FWD(find); SEARCH_CHECK(r, r_find, T_FIND); }
@@ -222,8 +222,8 @@ void h_find_ch_full(void) { HAYSTACK(6); NEEDLE_C(0UL);  unsigned long r = CALL_
 /*@GROUP name=rfind_full props=C08,C02 kind=B unwind=8 unwindset=r_find.0:8,r_rfind.0:8,r_ffo.0:8,r_ffno.0:8,r_flo.0:8,r_flno.0:8,r_cmp.0:8,r_mismatch.0:8,w_find_tail.0:8,r_match.0:5,r_in.0:5,r_strlen.0:5 bound=haystack<=6,needle<=3 cost=3 tier=thorough timeout=1500 when=VF_CT==0@*/
 void h_rfind_full(void) { HAYSTACK(6); NEEDLE_V(3); unsigned long r = CALL_V(rfind); SEARCH_CHECK(r, r_rfind, T_RFIND); }
 
-/*@GROUP name=rfind_fwd_full props=C08,C02 kind=B unwind=8 unwindset=r_find.0:8,r_rfind.0:8,r_ffo.0:8,r_ffno.0:8,r_flo.0:8,r_flno.0:8,r_cmp.0:8,r_mismatch.0:8,w_find_tail.0:8,r_match.0:5,r_in.0:5,r_strlen.0:5 bound=haystack<=6,needle<=3 cost=3 tier=thorough timeout=1500 when=VF_CT==0@*/
-void h_rfind_fwd_full(void) { HAYSTACK(6); NEEDLE_FWD(3, NPOS); unsigned long r = CALL_FWD(rfind); SEARCH_CHECK(r, r_rfind, T_RFIND); }
+/*@GROUP name=rfind_fwd_full props=C08,C02 kind=B unwind=7 unwindset=r_find.0:8,r_rfind.0:8,r_ffo.0:8,r_ffno.0:8,r_flo.0:8,r_flno.0:8,r_cmp.0:8,r_mismatch.0:8,w_find_tail.0:8,r_match.0:5,r_in.0:5,r_strlen.0:5 bound=haystack<=5,needle<=2 cost=3 tier=thorough timeout=1500 when=VF_CT==0@*/
+void h_rfind_fwd_full(void) { HAYSTACK(5); NEEDLE_FWD(2, NPOS); unsigned long r = CALL_FWD(rfind); SEARCH_CHECK(r, r_rfind, T_RFIND); }
 
 /*@GROUP name=rfind_ch_full props=C08,C02 kind=B unwind=8 unwindset=r_find.0:8,r_rfind.0:8,r_ffo.0:8,r_ffno.0:8,r_flo.0:8,r_flno.0:8,r_cmp.0:8,r_mismatch.0:8,w_find_tail.0:8,r_match.0:5,r_in.0:5,r_strlen.0:5 bound=haystack<=6 cost=1 tier=thorough timeout=1500 when=VF_CT==0@*/
 void h_rfind_ch_full(void) { HAYSTACK(6); NEEDLE_C(NPOS); unsigned long r = CALL_C(rfind); SEARCH_CHECK(r, r_rfind, T_RFIND); }
@@ -231,8 +231,8 @@ void h_rfind_ch_full(void) { HAYSTACK(6); NEEDLE_C(NPOS); unsigned long r = CALL
 /*@GROUP name=first_of_full props=C08,C02 kind=B unwind=8 unwindset=r_find.0:8,r_rfind.0:8,r_ffo.0:8,r_ffno.0:8,r_flo.0:8,r_flno.0:8,r_cmp.0:8,r_mismatch.0:8,w_find_tail.0:8,r_match.0:5,r_in.0:5,r_strlen.0:5 bound=haystack<=6,needle<=3 cost=3 tier=thorough timeout=1500 when=VF_CT==0@*/
 void h_first_of_full(void) { HAYSTACK(6); NEEDLE_V(3); unsigned long r = CALL_V(find_first_of); SEARCH_CHECK(r, r_ffo, T_FFO); }
 
-/*@GROUP name=first_of_fwd_full props=C08,C02 kind=B unwind=8 unwindset=r_find.0:8,r_rfind.0:8,r_ffo.0:8,r_ffno.0:8,r_flo.0:8,r_flno.0:8,r_cmp.0:8,r_mismatch.0:8,w_find_tail.0:8,r_match.0:5,r_in.0:5,r_strlen.0:5 bound=haystack<=6,needle<=3 cost=3 tier=thorough timeout=1500 when=VF_CT==0@*/
-void h_first_of_fwd_full(void) { HAYSTACK(6); NEEDLE_FWD(3, 0UL); unsigned long r = CALL_FWD(find_first_of); SEARCH_CHECK(r, r_ffo, T_FFO); }
+/*@GROUP name=first_of_fwd_full props=C08,C02 kind=B unwind=7 unwindset=r_find.0:8,r_rfind.0:8,r_ffo.0:8,r_ffno.0:8,r_flo.0:8,r_flno.0:8,r_cmp.0:8,r_mismatch.0:8,w_find_tail.0:8,r_match.0:5,r_in.0:5,r_strlen.0:5 bound=haystack<=5,needle<=2 cost=3 tier=thorough timeout=1500 when=VF_CT==0@*/
+void h_first_of_fwd_full(void) { HAYSTACK(5); NEEDLE_FWD(2, 0UL); unsigned long r = CALL_FWD(find_first_of); SEARCH_CHECK(r, r_ffo, T_FFO); }
 
 /*@GROUP name=first_of_ch_full props=C08,C02 kind=B unwind=8 unwindset=r_find.0:8,r_rfind.0:8,r_ffo.0:8,r_ffno.0:8,r_flo.0:8,r_flno.0:8,r_cmp.0:8,r_mismatch.0:8,w_find_tail.0:8,r_match.0:5,r_in.0:5,r_strlen.0:5 bound=haystack<=6 cost=1 tier=thorough timeout=1500 when=VF_CT==0@*/
 void h_first_of_ch_full(void) { HAYSTACK(6); NEEDLE_C(0UL); unsigned long r = CALL_C(find_first_of); SEARCH_CHECK(r, r_ffo, T_FFO); }
@@ -242,8 +242,8 @@ void h_last_of_full(void) { HAYSTACK(6); NEEDLE_V(3);
   __CPROVER_assume(hn >= 1); /* domain split: the empty view is in groups last_of_empty / last_not_of_empty */
    unsigned long r = CALL_V(find_last_of); SEARCH_CHECK(r, r_flo, T_FLO); }
 
-/*@GROUP name=last_of_fwd_full props=C08,C02 kind=B unwind=8 unwindset=r_find.0:8,r_rfind.0:8,r_ffo.0:8,r_ffno.0:8,r_flo.0:8,r_flno.0:8,r_cmp.0:8,r_mismatch.0:8,w_find_tail.0:8,r_match.0:5,r_in.0:5,r_strlen.0:5 bound=haystack<=6,needle<=3 cost=3 tier=thorough timeout=1500 when=VF_CT==0@*/
-void h_last_of_fwd_full(void) { HAYSTACK(6); NEEDLE_FWD(3, NPOS);
+/*@GROUP name=last_of_fwd_full props=C08,C02 kind=B unwind=7 unwindset=r_find.0:8,r_rfind.0:8,r_ffo.0:8,r_ffno.0:8,r_flo.0:8,r_flno.0:8,r_cmp.0:8,r_mismatch.0:8,w_find_tail.0:8,r_match.0:5,r_in.0:5,r_strlen.0:5 bound=haystack<=5,needle<=2 cost=3 tier=thorough timeout=1500 when=VF_CT==0@*/
+void h_last_of_fwd_full(void) { HAYSTACK(5); NEEDLE_FWD(2, NPOS);
   __CPROVER_assume(hn >= 1); /* domain split: the empty view is in groups last_of_empty / last_not_of_empty */
    unsigned long r = CALL_FWD(find_last_of); SEARCH_CHECK(r, r_flo, T_FLO); }
 
@@ -252,22 +252,22 @@ void h_last_of_ch_full(void) { HAYSTACK(6); NEEDLE_C(NPOS);
   __CPROVER_assume(hn >= 1); /* domain split: the empty view is in groups last_of_empty / last_not_of_empty */
    unsigned long r = CALL_C(find_last_of); SEARCH_CHECK(r, r_flo, T_FLO); }
 
-/*@GROUP name=first_not_of_full props=C08,C02 kind=B unwind=8 unwindset=r_find.0:8,r_rfind.0:8,r_ffo.0:8,r_ffno.0:8,r_flo.0:8,r_flno.0:8,r_cmp.0:8,r_mismatch.0:8,w_find_tail.0:8,r_match.0:5,r_in.0:5,r_strlen.0:5 bound=haystack<=6,needle<=3 cost=3 tier=thorough timeout=1500 when=VF_CT==0@*/
+/*@GROUP name=first_not_of_full props=C08,C02 kind=B solver=kissat unwind=8 unwindset=r_find.0:8,r_rfind.0:8,r_ffo.0:8,r_ffno.0:8,r_flo.0:8,r_flno.0:8,r_cmp.0:8,r_mismatch.0:8,w_find_tail.0:8,r_match.0:5,r_in.0:5,r_strlen.0:5 bound=haystack<=6,needle<=3 cost=3 tier=thorough timeout=1500 when=VF_CT==0@*/
 void h_first_not_of_full(void) { HAYSTACK(6); NEEDLE_V(3); unsigned long r = CALL_V(find_first_not_of); SEARCH_CHECK(r, r_ffno, T_FFNO); }
 
-/*@GROUP name=first_not_of_fwd_full props=C08,C02 kind=B unwind=8 unwindset=r_find.0:8,r_rfind.0:8,r_ffo.0:8,r_ffno.0:8,r_flo.0:8,r_flno.0:8,r_cmp.0:8,r_mismatch.0:8,w_find_tail.0:8,r_match.0:5,r_in.0:5,r_strlen.0:5 bound=haystack<=6,needle<=3 cost=3 tier=thorough timeout=1500 when=VF_CT==0@*/
-void h_first_not_of_fwd_full(void) { HAYSTACK(6); NEEDLE_FWD(3, 0UL); unsigned long r = CALL_FWD(find_first_not_of); SEARCH_CHECK(r, r_ffno, T_FFNO); }
+/*@GROUP name=first_not_of_fwd_full props=C08,C02 kind=B solver=kissat unwind=7 unwindset=r_find.0:8,r_rfind.0:8,r_ffo.0:8,r_ffno.0:8,r_flo.0:8,r_flno.0:8,r_cmp.0:8,r_mismatch.0:8,w_find_tail.0:8,r_match.0:5,r_in.0:5,r_strlen.0:5 bound=haystack<=5,needle<=2 cost=3 tier=thorough timeout=1500 when=VF_CT==0@*/
+void h_first_not_of_fwd_full(void) { HAYSTACK(5); NEEDLE_FWD(2, 0UL); unsigned long r = CALL_FWD(find_first_not_of); SEARCH_CHECK(r, r_ffno, T_FFNO); }
 
 /*@GROUP name=first_not_of_ch_full props=C08,C02 kind=B unwind=8 unwindset=r_find.0:8,r_rfind.0:8,r_ffo.0:8,r_ffno.0:8,r_flo.0:8,r_flno.0:8,r_cmp.0:8,r_mismatch.0:8,w_find_tail.0:8,r_match.0:5,r_in.0:5,r_strlen.0:5 bound=haystack<=6 cost=1 tier=thorough timeout=1500 when=VF_CT==0@*/
 void h_first_not_of_ch_full(void) { HAYSTACK(6); NEEDLE_C(0UL); unsigned long r = CALL_C(find_first_not_of); SEARCH_CHECK(r, r_ffno, T_FFNO); }
 
-/*@GROUP name=last_not_of_full props=C08,C02 kind=B unwind=8 unwindset=r_find.0:8,r_rfind.0:8,r_ffo.0:8,r_ffno.0:8,r_flo.0:8,r_flno.0:8,r_cmp.0:8,r_mismatch.0:8,w_find_tail.0:8,r_match.0:5,r_in.0:5,r_strlen.0:5 bound=haystack<=6,needle<=3 cost=3 tier=thorough timeout=1500 when=VF_CT==0@*/
+/*@GROUP name=last_not_of_full props=C08,C02 kind=B solver=kissat unwind=8 unwindset=r_find.0:8,r_rfind.0:8,r_ffo.0:8,r_ffno.0:8,r_flo.0:8,r_flno.0:8,r_cmp.0:8,r_mismatch.0:8,w_find_tail.0:8,r_match.0:5,r_in.0:5,r_strlen.0:5 bound=haystack<=6,needle<=3 cost=3 tier=thorough timeout=1500 when=VF_CT==0@*/
 void h_last_not_of_full(void) { HAYSTACK(6); NEEDLE_V(3);
   __CPROVER_assume(hn >= 1); /* domain split: the empty view is in groups last_of_empty / last_not_of_empty */
    unsigned long r = CALL_V(find_last_not_of); SEARCH_CHECK(r, r_flno, T_FLNO); }
 
-/*@GROUP name=last_not_of_fwd_full props=C08,C02 kind=B unwind=8 unwindset=r_find.0:8,r_rfind.0:8,r_ffo.0:8,r_ffno.0:8,r_flo.0:8,r_flno.0:8,r_cmp.0:8,r_mismatch.0:8,w_find_tail.0:8,r_match.0:5,r_in.0:5,r_strlen.0:5 bound=haystack<=6,needle<=3 cost=3 tier=thorough timeout=1500 when=VF_CT==0@*/
-void h_last_not_of_fwd_full(void) { HAYSTACK(6); NEEDLE_FWD(3, NPOS);
+/*@GROUP name=last_not_of_fwd_full props=C08,C02 kind=B solver=kissat unwind=7 unwindset=r_find.0:8,r_rfind.0:8,r_ffo.0:8,r_ffno.0:8,r_flo.0:8,r_flno.0:8,r_cmp.0:8,r_mismatch.0:8,w_find_tail.0:8,r_match.0:5,r_in.0:5,r_strlen.0:5 bound=haystack<=5,needle<=2 cost=3 tier=thorough timeout=1500 when=VF_CT==0@*/
+void h_last_not_of_fwd_full(void) { HAYSTACK(5); NEEDLE_FWD(2, NPOS);
   __CPROVER_assume(hn >= 1); /* domain split: the empty view is in groups last_of_empty / last_not_of_empty */
    unsigned long r = CALL_FWD(find_last_not_of); SEARCH_CHECK(r, r_flno, T_FLNO); }
 
@@ -318,10 +318,14 @@ void h_last_not_of_empty(void) { HAYSTACK(1); NEEDLE_FWD(2, NPOS); VF_INPUT(unsi
     VF_ASSERT(SGN(r) == r_cmp(ea, ean, eb, ebn), "compare: sign of traits::compare over min(len) characters, then of the length difference, on substr(pos1,count1) / v.substr(pos2,count2)"); \
     VF_ASSERT(h._begin == hay && h._size == hn, "the view itself is unchanged by compare"); VF_REACH()
 
-/*@GROUP name=compare props=C08,C02,C05 kind=B unwind=7 unwindset=r_find.0:8,r_rfind.0:8,r_ffo.0:8,r_ffno.0:8,r_flo.0:8,r_flno.0:8,r_cmp.0:8,r_mismatch.0:8,w_find_tail.0:8,r_match.0:5,r_in.0:5,r_strlen.0:5 bound=haystack<=5,other<=3 cost=3@*/
+/*@GROUP name=compare props=C08,C02,C05 kind=B unwind=7 unwindset=r_find.0:8,r_rfind.0:8,r_ffo.0:8,r_ffno.0:8,r_flo.0:8,r_flno.0:8,r_cmp.0:8,r_mismatch.0:8,w_find_tail.0:8,r_match.0:5,r_in.0:5,r_strlen.0:5 bound=haystack<=5,other<=3 cost=3 when=VF_CT==0@*/
 void h_compare(void) { COMPARE_BODY(5, 3);
   VF_KNOWN(C08_compare_char_signed, w_cmp_signed(ea, ean, eb, ebn));
   COMPARE_CALL(); }
+
+/* wchar_t / char16_t: traits::lt is the built-in < of the character type, nothing known */
+/*@GROUP name=compare_wide props=C08,C02,C05 kind=B unwind=7 unwindset=r_find.0:8,r_rfind.0:8,r_ffo.0:8,r_ffno.0:8,r_flo.0:8,r_flno.0:8,r_cmp.0:8,r_mismatch.0:8,w_find_tail.0:8,r_match.0:5,r_in.0:5,r_strlen.0:5 bound=haystack<=5,other<=3 cost=3 when=VF_CT!=0@*/
+void h_compare_wide(void) { COMPARE_BODY(5, 3); COMPARE_CALL(); }
 
 /*@GROUP name=compare_full props=C08,C02,C05 kind=B unwind=8 unwindset=r_find.0:8,r_rfind.0:8,r_ffo.0:8,r_ffno.0:8,r_flo.0:8,r_flno.0:8,r_cmp.0:8,r_mismatch.0:8,w_find_tail.0:8,r_match.0:5,r_in.0:5,r_strlen.0:5 bound=haystack<=6,other<=3 cost=3 tier=thorough timeout=1500 when=VF_CT==0@*/
 void h_compare_full(void) { COMPARE_BODY(6, 3);
